@@ -84,7 +84,8 @@ def _csr_node(draw, dw, depth):
     return {"t": "csrdec", "dw": dw, "al": draw(st.sampled_from([0, 0, 1, 2])), "subs": subs,
             "extra_aw": draw(st.integers(0, 1)), "squeeze": False, "shuffle": draw(st.integers(0, 2)) == 0,
             "mid_elab": draw(st.sampled_from([None, None, None, 0, 1])),
-            "readd": [draw(st.integers(0, 2))] if draw(st.integers(0, 5)) == 0 else []}
+            "readd": [draw(st.integers(0, 2))] if draw(st.integers(0, 5)) == 0 else [],
+            "opts": draw(gens.decoder_opts())}
 
 
 @st.composite
@@ -108,7 +109,8 @@ def _wb_node(draw, dw, g, depth):
     return {"t": "wbdec", "dw": dw, "g": g, "feat": draw(gens.wb_features()), "al": draw(st.sampled_from([0, 0, 1, 2])),
             "subs": subs, "extra_aw": draw(st.integers(0, 1)), "squeeze": False, "zero_aw": False,
             "shuffle": draw(st.integers(0, 2)) == 0, "mid_elab": draw(st.sampled_from([None, None, None, 0, 1])),
-            "readd": [draw(st.integers(0, 2))] if draw(st.integers(0, 5)) == 0 else []}
+            "readd": [draw(st.integers(0, 2))] if draw(st.integers(0, 5)) == 0 else [],
+            "opts": draw(gens.decoder_opts()), "feat_style": draw(st.sampled_from(gens.FEATURE_STYLES))}
 
 
 @st.composite
@@ -520,7 +522,17 @@ def check(spec, stats):
                 tick[0] += 1
                 await ctx.tick()
             if idle or acked is None:
-                ctx.set(wb.cyc, 0); ctx.set(wb.stb, 0)
+                # the cycle between two transfers: bus released, or the cycle held with the strobe
+                # low (wait state of a block cycle) / a strobe without cycle, the other request lines
+                # carrying anything - none of which is an access
+                v = hval(seed, "idlekind", tick[0], 2)
+                ctx.set(wb.cyc, int(v == 1)); ctx.set(wb.stb, int(v == 2))
+                if v in (1, 2):
+                    stats.label("idle_cyc_only" if v == 1 else "idle_stb_only")
+                    if wb.addr_width:
+                        ctx.set(wb.adr, hval(seed, "idleadr", tick[0], wb.addr_width))
+                    ctx.set(wb.sel, hval(seed, "idlesel", tick[0], R)); ctx.set(wb.we, hval(seed, "idlewe", tick[0], 1))
+                    ctx.set(wb.dat_w, hval(seed, "idledat", tick[0], dwid))
                 drive_leaf_values(ctx)
                 sample(ctx, counts, where + " (idle cycle after)")
                 if ctx.get(wb.ack):
